@@ -376,13 +376,14 @@ static int Convert_mus2midi(uint8_t *in, uint32_t insize,
                 break;
             case MUSEVENT_CHANNELMODE:
                 status |= 0xB0;
-                MUS_NEED(2);
+                MUS_NEED(1);
                 if (*cur >= sizeof(mus_midimap) / sizeof(mus_midimap[0])) {
                     /*_WM_ERROR_NEW("%s:%i: can't map %u to midi",
                                   __FUNCTION__, __LINE__, *cur);*/
                     goto _end;
                 }
-                bit1 = mus_midimap[*cur++];
+                /* a system event has a single data byte */
+                bit1 = mus_midimap[*cur];
                 bit2 = (*cur++ == 12) ? header.channels + 1 : 0x00;
                 break;
             case MUSEVENT_CONTROLLERCHANGE:
